@@ -2,7 +2,7 @@
 import os
 import time
 
-from .. import chrun, e1, runner
+from .. import chrun, e1, runner, specgen
 
 PROP = "C18"
 HFILE = os.path.join(os.path.dirname(os.path.dirname(os.path.abspath(__file__))), "ch", "legality.py")
@@ -92,10 +92,66 @@ def projection_cases():
     return out
 
 
-DATAFLOW = DATAFLOW + projection_cases()
+DATAFLOW = DATAFLOW + projection_cases() + [
+    # two output ranks, one of them only derivable (no loop binds it)
+    ("project-into-output/two-output-ranks [S,W,P]", {"F": ["S"], "I": ["W"], "O": ["P", "Q"]}, ["O[p, q] = I[p + q + s] * F[s]"],
+     {"loop-order": {"O": ["S", "W", "P"]}}, True),
+    ("project-into-output/two-output-ranks [W,S,Q]", {"F": ["S"], "I": ["W"], "O": ["P", "Q"]}, ["O[p, q] = I[p + q + s] * F[s]"],
+     {"loop-order": {"O": ["W", "S", "Q"]}}, True),
+    # the same rules when ANOTHER Einsum of the cascade declares a rank that is named like the flattened rank
+    ("shape-after-flatten/other-einsum-declares-KM", {"A": ["K", "M"], "B": ["K", "N"], "Z": ["M", "N"], "C": ["KM"], "Y": ["KM"]},
+     ["Z[m, n] = A[k, m] * B[k, n]", "Y[km] = C[km]"],
+     {"partitioning": {"Z": {"(K, M)": ["flatten()"], "KM": ["uniform_shape(2)"]}}, "loop-order": {"Z": ["KM1", "N", "KM0"]}}, True),
+    ("shape-after-flatten/other-einsum-first", {"C": ["KM"], "Y": ["KM"], "A": ["K", "M"], "B": ["K", "N"], "Z": ["M", "N"]},
+     ["Y[km] = C[km]", "Z[m, n] = A[k, m] * B[k, n]"],
+     {"partitioning": {"Z": {"(K, M)": ["flatten()"], "KM": ["uniform_shape(2)"]}}, "loop-order": {"Z": ["KM1", "N", "KM0"]}}, True),
+    ("flatten-flattened/other-einsum-declares-KM", {"A": ["K", "M", "N"], "Z": [], "C": ["KM"], "Y": ["KM"]},
+     ["Z[] = A[k, m, n]", "Y[km] = C[km]"],
+     {"partitioning": {"Z": {"(K, M)": ["flatten()"], "(KM, N)": ["flatten()"]}}}, True),
+    ("legal/other-einsum-declares-KM", {"A": ["K", "M"], "B": ["K", "N"], "Z": ["M", "N"], "C": ["KM"], "Y": ["KM"]},
+     ["Z[m, n] = A[k, m] * B[k, n]", "Y[km] = C[km]"],
+     {"partitioning": {"Z": {"(K, M)": ["flatten()"]}}, "loop-order": {"Z": ["KM", "N"]}}, False),
+    ("legal/two-output-ranks [P,Q,S]", {"F": ["S"], "I": ["W"], "O": ["P", "Q"]}, ["O[p, q] = I[p + q + s] * F[s]"],
+     {"loop-order": {"O": ["P", "Q", "S"]}}, False),
+]
+
+
+def metrics_cases():
+    """'an Einsum without accelerator config in the bindings': the Einsum's entry lacks the config, or is missing altogether"""
+    from ruamel.yaml import YAML
+    from ..spec import _dump, _plain
+    out = []
+    base = specgen.cascade_metrics_spec((0, 1, 2), "c18/cascade3")
+    y = _plain(YAML(typ="safe").load(base["bindings"]))
+    for victim in ("T", "U", "Z"):
+        b = {e: v for e, v in y["bindings"].items() if e != victim}
+        out.append(("bindings/einsum-%s-missing-altogether" % victim, dict(base, name="c18/missing-%s" % victim, bindings=_dump({"bindings": b}, 0)), True))
+        b = {e: ([x for x in v if "config" not in x] if e == victim else v) for e, v in y["bindings"].items()}
+        out.append(("bindings/einsum-%s-without-config-entry" % victim, dict(base, name="c18/noconfig-%s" % victim, bindings=_dump({"bindings": b}, 0)), True))
+    out.append(("legal/bindings-complete", base, False))
+    return out
 
 
 def work(job):
+    if job["kind"] == "metrics-case":
+        name, spec, must = job["case"]
+        base = {"name": "dataflow/" + name, "concrete": True}
+        from .. import e1
+        try:
+            e1.compile_spec(spec, True)
+            err = None
+        except e1.Rejected as r:
+            err = str(r)
+        if must and err is None:
+            return dict(base, status="violation", confirmed=True, why="illegal specification (%s) is compiled silently" % name,
+                        sig={"engine": "dataflow", "case": name}, replay={"spec": spec, "metrics": True})
+        if must and not err.startswith("ValueError"):
+            return dict(base, status="violation", confirmed=True, why="illegal specification (%s) fails with %s, not ValueError" % (name, err[:120]),
+                        sig={"engine": "dataflow", "case": name, "exc": err.split(":")[0]}, replay={"spec": spec, "metrics": True})
+        if not must and err is not None:
+            return dict(base, status="violation", confirmed=True, why="legal control specification (%s) is rejected: %s" % (name, err),
+                        sig={"engine": "dataflow", "case": name}, replay={"spec": spec, "metrics": True})
+        return dict(base, status="ok")
     if job["kind"] == "dataflow":
         name, decl, exprs, mapping, must = job["case"]
         spec = {"name": name, "decl": decl, "exprs": exprs, "mapping": mapping, "extents": {}}
@@ -159,6 +215,8 @@ def run(tier, seed):
         jobs.append({"kind": "ch", "name": name, "file": f, "func": func, "role": role, "timeout": to if tier == "quick" else to * 4, "env": env})
     for c in DATAFLOW:
         jobs.append({"kind": "dataflow", "case": c, "name": c[0]})
+    for c in metrics_cases():
+        jobs.append({"kind": "metrics-case", "case": c, "name": c[0]})
     res = runner.pmap(work, jobs)
     ch = [r for r in res if not r.get("concrete")]
     cov = {
@@ -180,6 +238,15 @@ def run(tier, seed):
 
 def replay(data):
     rp = data["replay"]
+    if "spec" in rp:
+        from .. import e1
+        try:
+            print(e1.compile_spec(rp["spec"], rp.get("metrics", False)))
+            print("compiled")
+            return 1
+        except e1.Rejected as r:
+            print("rejected:", r)
+            return 0 if str(r).startswith("ValueError") else 1
     if "yaml" in rp:
         from teaal.parse import Einsum, Mapping
         from teaal.trans.hifiber import HiFiber
